@@ -121,7 +121,8 @@ package mqtt
 //@   loop 1 unroll 2
 //@   ensures[C10] wire: evCount("Transport.Write") >= 1 || len(b) == 0
 //@   ensures[C05,C10] whole: result == nil && len(b) > 0 ==> evCount("Transport.Write") == 1 && seqEq(evBytes("Transport.Write", 0, 1), seqOf(b))
-//@   ensures[C10] locked: evCount("Transport.Write") >= 1 ==> evIndex("lock", 0) < evIndex("Transport.Write", 0) && evIndex("Transport.Write", evCount("Transport.Write")-1) < evIndex("unlock", 0)
+//@   ensures[C10] locked: evCount("lock") == 1 && evCount("unlock") == 1 && evArg[*sync.Mutex]("lock", 0, 0) == &c.muWrite && evArg[*sync.Mutex]("unlock", 0, 0) == &c.muWrite
+//@   ensures[C10] locked_across: evCount("Transport.Write") >= 1 ==> evIndex("lock", 0) < evIndex("Transport.Write", 0) && evIndex("Transport.Write", evCount("Transport.Write")-1) < evIndex("unlock", 0)
 
 
 //@ func (*signaller).PubAck
